@@ -3,6 +3,7 @@ from fractions import Fraction
 from .conds import PT, alpha
 
 UNITS = ['pt', 'cm', 'mm', 'in', 'pc', 'bp']
+LENGTHS = [('3cm', Fraction(3) * PT['cm']), ('10pt', Fraction(10)), ('0pt', Fraction(0)), ('2.5mm', Fraction(5, 2) * PT['mm']), ('7pt', Fraction(7))]
 
 
 class BoolGen(object):
@@ -11,7 +12,8 @@ class BoolGen(object):
         self.counters = {}     # name -> value
         self.nums = {}         # macro name -> value
         self.strs = {}         # macro name -> string
-        self.lens = {}         # length register name -> (text of its value, value in pt)
+        self.lens = {}         # length register name -> (text of its current value, value in pt)
+        self.lens_init = {}    # ... its value when the document starts (registers are assigned anew between the tests)
         self.bools = {}        # boolean name -> value
         self.features = set()
         self.adj = set()
@@ -53,7 +55,9 @@ class BoolGen(object):
         if r.random() < 0.25:
             # a length register: bare, negated, or with a factor
             if not self.lens or r.random() < 0.3:
-                self.lens['zql' + alpha(len(self.lens))] = r.choice([('3cm', Fraction(3) * PT['cm']), ('10pt', Fraction(10)), ('0pt', Fraction(0)), ('2.5mm', Fraction(5, 2) * PT['mm'])])
+                nm = 'zql' + alpha(len(self.lens))
+                self.lens[nm] = r.choice(LENGTHS)
+                self.lens_init[nm] = self.lens[nm]
             n = r.choice(sorted(self.lens))
             v = self.lens[n][1]
             self.features.add('length-register-operand')
@@ -160,6 +164,16 @@ class BoolGen(object):
             v = (v and v2) if op == 'and' else (v or v2)     # left to right, equal precedence
         return t, v
 
+    def reassign(self):
+        """-> source that gives one of the length registers a new value (TeX-style assignment), or ''; what is generated afterwards
+        sees the new value"""
+        if not self.lens:
+            return ''
+        n = self.r.choice(sorted(self.lens))
+        self.lens[n] = self.r.choice(LENGTHS)
+        self.features.add('register-assigned-between-tests')
+        return '\\%s=%s ' % (n, self.lens[n][0])
+
     def preamble(self):
         s = ''
         for n, v in sorted(self.counters.items()):
@@ -168,7 +182,7 @@ class BoolGen(object):
             s += '\\def\\%s{%d}' % (n, v)
         for n, v in sorted(self.strs.items()):
             s += '\\def\\%s{%s}' % (n, v)
-        for n, (txt, v) in sorted(self.lens.items()):
+        for n, (txt, v) in sorted(self.lens_init.items()):
             # (assigned the TeX way: plasTeX does not carry out \setlength -- a design limit, DESIGN.md section 8)
             s += '\\newlength{\\%s}\\%s=%s ' % (n, n, txt)
         for n, v in sorted(self.bools.items()):
